@@ -52,8 +52,10 @@ class C06(DimwiseCheck):
     runs = {"quick": 2500, "thorough": 30000}
     budget_s = {"quick": 70.0, "thorough": 700.0}
     rule = ("schedule = configuration (dim 1-4, lmin, lmax, coarsening version, rebalancing, safety factor, margin, box) plus the "
-            "environment's benefit answers per interval and evaluation (keyed draws: zero / tie at 1.0 / uniform; modes all-equal "
-            "and all-zero); the real adaptive loop runs for 1-6 evaluations. A state is the list of intervals with point levels of "
+            "environment's benefit answers per interval and evaluation (keyed draws: zero / tie at 1.0 / uniform / just below or just above "
+            "the margin fraction of a tie; modes all-equal and all-zero; a per-run scale 1e-15 ... 1e7; families: long narrow histories "
+            "with position-biased answers, sharply localised 'focus' drivers from start levels with lmax - lmin >= 2); the real adaptive "
+            "loop runs for 1-6 (long families: up to 12) evaluations. A state is the list of intervals with point levels of "
             "all dimensions; distinct_nontrivial counts distinct states reached after a refinement step (differing from the initial grid)")
     expected_probes = ["rebalancing", "new_lmax", "split_at_coarsening_zero", "ties_at_margin", "single_split_step",
                        "split_everything_step", "all_benefits_zero"]
@@ -168,8 +170,10 @@ class C05(DimwiseCheck):
     runs = {"quick": 1200, "thorough": 15000}
     budget_s = {"quick": 90.0, "thorough": 900.0}
     fixed_prefix = 1
-    rule = ("schedule = strategy configuration + benefit answers + driver operations (run to a point limit, continue with larger limits, "
-            "1-3 stops per history, recalculate_frequently with small refinements_for_recalculate in a share of runs); at every stop the "
+    rule = ("schedule = strategy configuration + benefit answers + driver operations (run to a point limit, continue with larger limits - one "
+            "continuation in five through a new driver call that is handed the old container -, 1-3 stops per history, recalculate_frequently "
+            "with small refinements_for_recalculate in a share of runs; StandardCombi / DimAdaptiveCombi on the local grid families that run "
+            "here: trapezoidal, Clenshaw-Curtis, Gauss-Legendre, Simpson, Leja, Lagrange, B-spline); at every stop the "
             "reported value is compared with (1) the coefficient-weighted sum of component results recomputed by an independent composite "
             "trapezoid on the reported point lists, (2) evaluate_final_combi() (twice) on a deep copy, (3) the same history run with "
             "reevaluate_at_end=True, (5) sum w f over get_points_and_weights(). distinct_nontrivial counts distinct refined structures at which a stop was checked")
